@@ -5,6 +5,46 @@ _ALL = ["C%02d" % i for i in range(1, 21)]
 
 CHECKS = [
     {
+        "property_id": "C02",
+        "level": "exploration",
+        "technique": "property-based testing (Hypothesis): forward/backward round trip over generated integrator x "
+                     "system x state x step-size x length, input-state byte snapshots",
+        "text": "All integrator classes (incl. generated symmetric compositions, both fixed-point solvers, three "
+                "projection solvers, 1-4 inner steps) on all compatible system classes and metric types: n steps, "
+                "flip direction, n steps must return to the start within a stated solver-tolerance bound; raising "
+                "steps must raise IntegratorError subclasses and never modify their input. Sampling, dimension <= 3, "
+                "n <= 20, step sizes inside the stability region.",
+        "design_ref": "DESIGN.md section 2, C02",
+        "note": "Raising steps are counted as discards, never as passes; tolerance n*tau*(1+|z|) with tau stated in "
+                "the evidence rule.",
+    },
+    {
+        "property_id": "C03",
+        "level": "exploration",
+        "technique": "property-based testing (Hypothesis): finite-difference Jacobian of the step map vs the "
+                     "symplectic condition; induced 2-form on the cotangent bundle for constrained systems",
+        "text": "J' Omega J = Omega is checked on 4th-order finite-difference Jacobians of 1-3 steps of every "
+                "integrator on non-linear targets and position-dependent metrics; for constrained systems the "
+                "canonical 2-form restricted to tangent vectors of the cotangent bundle (obtained from the harness's "
+                "own projection) is compared before and after. Sampling, dimension <= 3.",
+        "design_ref": "DESIGN.md section 2, C03",
+        "note": "Solver tolerances tightened to 1e-13 so that the step map is differentiable numerically; default "
+                "tolerances judged at 1e-3 only.",
+    },
+    {
+        "property_id": "C04",
+        "level": "exploration",
+        "technique": "property-based testing (Hypothesis): constraint residuals re-evaluated through the model zoo "
+                     "after steps/samples/projections; Lagrange-multiplier-form fit of solver corrections",
+        "text": "Constrained systems with linear and curved constraints, all metrics, both densities, three solvers "
+                "with generated options (incl. small line-search budgets and too-large steps): every returned state "
+                "is on the manifold and in the cotangent space; a returning solver's position and momentum corrections "
+                "share one multiplier vector; anything but ConvergenceError escaping a solver is a failure.",
+        "design_ref": "DESIGN.md section 2, C04",
+        "note": "Start points are produced by the harness's own Gauss-Newton projection; rank-deficient Jacobians "
+                "are discarded.",
+    },
+    {
         "property_id": "C05",
         "level": "exploration",
         "technique": "property-based testing (Hypothesis): generated systems/states vs the documented Hamiltonian "
@@ -17,6 +57,38 @@ CHECKS = [
         "note": "Trusts numpy.linalg and the zoo's closed forms (self-checked against finite differences at "
                 "start-up); positions where a constraint Jacobian is rank deficient or a SoftAbs Hessian is exactly "
                 "singular are discarded and counted.",
+    },
+    {
+        "property_id": "C06",
+        "level": "exploration",
+        "technique": "property-based testing (Hypothesis): observed local order against an independent DOP853 "
+                     "reference solution of the documented Hamiltonian (index-1 reduction for constraints)",
+        "text": "One step at eps, eps/2, eps/4 is compared with a high-accuracy ODE solution of Hamilton's equations "
+                "of the documented Hamiltonian that never calls mici; observed order must be >= 2.5 (energy >= 1.7); "
+                "composition coefficients must be palindromic and consistent. Sampling, dimension <= 3.",
+        "design_ref": "DESIGN.md section 2, C06",
+        "note": "Reference accuracy ~1e-10 relative; order judged only where errors exceed 1e-8.",
+    },
+    {
+        "property_id": "C07",
+        "level": "exploration",
+        "technique": "property-based testing (Hypothesis): component flows vs closed forms (scipy expm for the "
+                     "harmonic split), group law, energy conservation, flow-Jacobian blocks",
+        "text": "h1_flow, h2_flow and dh2_flow_dmom of all tractable-flow systems and all 14 metric types incl. "
+                "implicit identity, for times of both signs up to 50 (many periods). Sampling, dimension <= 4.",
+        "design_ref": "DESIGN.md section 2, C07",
+        "note": "Trusts scipy.linalg.expm and 6th-order finite differences of the documented h1.",
+    },
+    {
+        "property_id": "C08",
+        "level": "exploration",
+        "technique": "property-based testing (Hypothesis) with a scripted generator: momentum maps read off as "
+                     "matrices and compared with the covariance implied by the Hamiltonian",
+        "text": "sample_momentum is exactly linear in the normal draw with L L' equal to the (projected) metric for "
+                "all 10 system classes; partial refresh p' = A p + B z satisfies A S A' + B B' = S for every "
+                "coefficient incl. 0, 1 and near-boundary values. Exact algebra, no sampling statistics.",
+        "design_ref": "DESIGN.md section 2, C08",
+        "note": "The generator passed to mici is a scripted stand-in exposing standard_normal/normal only.",
     },
     {
         "property_id": "C10",
